@@ -555,6 +555,20 @@ pub fn capture_restore(with_hard: bool) -> Vec<String> {
     out
 }
 
+/// Several capture groups inside one delegated piece, some of which do not participate
+/// (slot mapping between the delegate's groups and the VM's; seed S7-C02).
+pub fn delegate_groups() -> Vec<String> {
+    let bodies = ["(?:(a)|(b))(c)", "(a)?(b)", "(a)(b)?(c)", "(a)?(b)?(c)", "((a)|b)(c)", "(?:(a)|(b)|(c))", "(a)?(?:(b)|(c))", "(a|(b))(c)?(a)"];
+    let hosts = ["X(?!d)", "X\\b", "(?=)X", "(?>X)", "(?=X)[abc]", "(?!X)?X(?=)", "(?:X(?=))+", "X(?=)|(a)"];
+    let mut out = Vec::new();
+    for b in bodies.iter() {
+        for h in hosts.iter() {
+            out.push(h.replace("X", b));
+        }
+    }
+    out
+}
+
 /// Commits that merge many log entries although the text is short: counted repeats over
 /// groups that can match empty, inside an atomic scope whose continuation fails (seed
 /// S7-C20: a merge that is only wrong beyond 32 entries).
